@@ -200,7 +200,7 @@ def build(variant, out):
         srcs = [os.path.join(hs, "pncx.c")]
         if os.path.exists(os.path.join(hs, "shim.c")):
             srcs.append(os.path.join(hs, "shim.c"))
-        cmd = [V["cc"]] + V["cflags"] + ["-Wall", "-Wno-unused-function", "-Wno-unused-variable"] + hinc + ["-I" + gen] + srcs + \
+        cmd = [V["cc"]] + V["cflags"] + ["-Wall", "-Wno-unused-function", "-Wno-unused-variable", "-Wno-incompatible-pointer-types-discards-qualifiers"] + hinc + ["-I" + gen] + srcs + \
               [lib] + V["ldflags"] + MPI_LIB + ["-lm", "-o", os.path.join(out, "pncx")]
         ok = run(cmd, log) and ok
     if variant == "fuzz":
